@@ -558,6 +558,10 @@ func (t *Transition) emitExitEvents() Result {
 				// partial auto state acceptance
 				targetStates := t.TargetStates()
 				idx := slices.Index(targetStates, fromState)
+				if idx == -1 {
+					// an exiting state is never among the targets, cancel
+					return ret
+				}
 				t.TargetIndexes = slices.Delete(t.TargetIndexes, idx, idx+1)
 				targetStates = slices.Delete(targetStates, idx, idx+1)
 				t.cacheTargetStates.Store(&targetStates)
